@@ -17,22 +17,192 @@ import (
 // applies, which is "allow" iff the allow list is empty.
 
 var (
-	c23sPatterns = []string{"*", "", "a", "a*", "ab"} // star, blank, exact, prefix wildcard, exact
+	// star, blank, exact, trailing wildcard, exact; then the other features of the pattern language
+	// (none of them combined with '*'): class with a set (= ab), class with a range (= a, b), negated
+	// class (= b), backslash escape (= ab), '?' (= ab)
+	c23sPatterns = []string{"*", "", "a", "a*", "ab", "a[bc]", "[a-b]", "[^a]", `a\b`, "a?"}
 	c23sTopics   = []string{"a", "ab", "b"}
 )
 
+// Reference matcher, written from the definition of the pattern language the proxy hands its
+// patterns to (Go path.Match), not by calling it:
+//
+//	'*'                  any run of characters other than '/'
+//	'?'                  one character other than '/'
+//	'[' ['^'] range+ ']' one character in (with '^': not in) the non-empty list of ranges;
+//	                     range = c | lo '-' hi; c may be written '\\' c, and must be when it is
+//	                     '-', ']' or '\\'
+//	'\\' c               the character c
+//	c                    the character c
+//
+// c23sGlob returns wellFormed=false for a malformed pattern (unterminated or empty class, trailing
+// backslash, bare '-' or ']' as a range bound); their meaning is not documented and the alphabet
+// has none.
+func c23sGlob(pattern, s []rune) (matched, wellFormed bool) {
+	if len(pattern) == 0 {
+		return len(s) == 0, true
+	}
+	switch pattern[0] {
+	case '*':
+		// the rest must be well formed whether or not anything matches
+		if _, ok := c23sGlob(pattern[1:], nil); !ok {
+			return false, false
+		}
+		for i := 0; i <= len(s); i++ {
+			if i > 0 && s[i-1] == '/' {
+				break
+			}
+			if m, _ := c23sGlob(pattern[1:], s[i:]); m {
+				return true, true
+			}
+		}
+		return false, true
+	case '?':
+		m, ok := c23sGlob(pattern[1:], c23sTail(s))
+		return m && len(s) > 0 && s[0] != '/', ok
+	case '\\':
+		if len(pattern) < 2 {
+			return false, false
+		}
+		m, ok := c23sGlob(pattern[2:], c23sTail(s))
+		return m && len(s) > 0 && s[0] == pattern[1], ok
+	case '[':
+		i, neg, in, n := 1, false, false, 0
+		if i < len(pattern) && pattern[i] == '^' {
+			neg, i = true, i+1
+		}
+		bound := func() (rune, bool) {
+			if i >= len(pattern) {
+				return 0, false
+			}
+			c := pattern[i]
+			if c == '\\' {
+				if i+1 >= len(pattern) {
+					return 0, false
+				}
+				c, i = pattern[i+1], i+2
+				return c, true
+			}
+			if c == '-' || c == ']' {
+				return 0, false
+			}
+			i++
+			return c, true
+		}
+		for {
+			if i >= len(pattern) {
+				return false, false
+			}
+			if pattern[i] == ']' && n > 0 {
+				i++
+				break
+			}
+			lo, ok := bound()
+			if !ok {
+				return false, false
+			}
+			hi := lo
+			if i < len(pattern) && pattern[i] == '-' {
+				i++
+				if hi, ok = bound(); !ok {
+					return false, false
+				}
+			}
+			n++
+			if len(s) > 0 && lo <= s[0] && s[0] <= hi {
+				in = true
+			}
+		}
+		m, ok := c23sGlob(pattern[i:], c23sTail(s))
+		return m && len(s) > 0 && in != neg, ok
+	}
+	m, ok := c23sGlob(pattern[1:], c23sTail(s))
+	return m && len(s) > 0 && s[0] == pattern[0], ok
+}
+
+func c23sTail(s []rune) []rune {
+	if len(s) == 0 {
+		return nil
+	}
+	return s[1:]
+}
+
+var c23sMemo = map[[2]string]bool{} // the enumeration is sequential
+
 func c23sRefMatch(pattern, topic string) bool {
+	if m, ok := c23sMemo[[2]string{pattern, topic}]; ok {
+		return m
+	}
+	m := c23sRefMatchSlow(pattern, topic)
+	c23sMemo[[2]string{pattern, topic}] = m
+	return m
+}
+
+func c23sRefMatchSlow(pattern, topic string) bool {
 	pattern = strings.TrimSpace(pattern)
 	switch {
 	case pattern == "":
 		return false // a blank pattern is no pattern
 	case pattern == "*":
 		return true
-	case strings.HasSuffix(pattern, "*"):
-		p := pattern[:len(pattern)-1]
-		return len(topic) >= len(p) && topic[:len(p)] == p
 	}
-	return pattern == topic
+	m, ok := c23sGlob([]rune(pattern), []rune(topic))
+	if !ok {
+		panic("c23s: malformed pattern in the alphabet: " + pattern)
+	}
+	return m
+}
+
+// c23sSelfCheck: the reference matcher against hand-computed answers (independent of the code
+// under test), including the malformed shapes.
+func c23sSelfCheck() error {
+	type row struct {
+		p, s  string
+		m, ok bool
+	}
+	rows := []row{
+		{"a", "a", true, true}, {"a", "ab", false, true}, {"a*", "a", true, true}, {"a*", "ab", true, true}, {"a*", "b", false, true},
+		{"*", "", true, true}, {"*b", "ab", true, true}, {"*", "a/b", false, true}, {"a*b*", "axxbyy", true, true},
+		{"a[bc]", "ab", true, true}, {"a[bc]", "ac", true, true}, {"a[bc]", "a", false, true}, {"a[bc]", "a[bc]", false, true},
+		{"[a-b]", "a", true, true}, {"[a-b]", "b", true, true}, {"[a-b]", "c", false, true}, {"[a-b]", "ab", false, true},
+		{"[^a]", "b", true, true}, {"[^a]", "a", false, true}, {"[^a]", "", false, true}, {"[^a]", "bb", false, true},
+		{`a\b`, "ab", true, true}, {`a\b`, `a\b`, false, true}, {`\*`, "*", true, true}, {`\*`, "a", false, true},
+		{"a?", "ab", true, true}, {"a?", "a", false, true}, {"a?", "abc", false, true}, {"?", "/", false, true},
+		{`[\]a]`, "]", true, true}, {`[a\-c]`, "-", true, true}, {`[a\-c]`, "b", false, true}, {"[a-cx-z]", "y", true, true},
+		{"a]", "a]", true, true},
+		{"a[", "a", false, false}, {"[]", "a", false, false}, {"[a", "a", false, false}, {`a\`, "a", false, false},
+		{"[a-]", "a", false, false}, {"[-a]", "a", false, false}, {"[]a]", "a", false, false}, {"*[", "zzz", false, false}, {"b[", "a", false, false},
+	}
+	for _, r := range rows {
+		m, ok := c23sGlob([]rune(r.p), []rune(r.s))
+		if ok != r.ok || (ok && m != r.m) {
+			return fmt.Errorf("reference matcher: glob(%q,%q)=(%v,%v), expected (%v,%v)", r.p, r.s, m, ok, r.m, r.ok)
+		}
+	}
+	for _, p := range c23sPatterns {
+		if _, ok := c23sGlob([]rune(strings.TrimSpace(p)), nil); !ok {
+			return fmt.Errorf("malformed pattern %q in the alphabet", p)
+		}
+	}
+	return nil
+}
+
+// c23sPatternKind classifies a pattern by the feature of the pattern language it uses.
+func c23sPatternKind(p string) string {
+	p = strings.TrimSpace(p)
+	switch {
+	case p == "*":
+		return "star"
+	case strings.Contains(p, "["):
+		return "class"
+	case strings.Contains(p, "\\"):
+		return "escape"
+	case strings.Contains(p, "?"):
+		return "question-mark"
+	case strings.HasSuffix(p, "*"):
+		return "prefix"
+	}
+	return "exact"
 }
 
 func c23sAny(list []string, topic string) bool {
@@ -72,14 +242,7 @@ func c23sExpect(a ACL, topic string) (want bool, either bool, reason string) {
 func c23sKind(list []string, topic string) string {
 	for _, p := range list {
 		if c23sRefMatch(p, topic) {
-			p = strings.TrimSpace(p)
-			switch {
-			case p == "*":
-				return "star"
-			case strings.HasSuffix(p, "*"):
-				return "prefix"
-			}
-			return "exact"
+			return c23sPatternKind(p)
 		}
 	}
 	return "none"
@@ -100,7 +263,8 @@ func c23sCheckDecision(rep *vh.Report, a ACL, topic string) string {
 	if !either && got != want {
 		key := "sql-"
 		switch {
-		case reason == "deny-pattern" && c23sAny(a.Allow, topic):
+		case reason == "deny-pattern" && c23sAny(a.Allow, topic) && !(ACL{Deny: a.Deny}).Allows(topic):
+			// control: the deny list alone does deny the topic, so the allow list is what overrode it
 			key += "allow-evaluated-before-deny"
 		case reason == "deny-pattern":
 			key += "deny-pattern-missed:" + c23sKind(a.Deny, topic)
@@ -126,8 +290,9 @@ func c23sCheckMono(rep *vh.Report, base, ext ACL, added, topic string) {
 func TestVerifC23(t *testing.T) {
 	rep := vh.New(t, "C23")
 	defer rep.Finish()
-	rep.Rule = "SQL proxy half: case = (ACL, topic) decided by the real proxy.ACL.Allows; ACLs = every pair of allow/deny pattern sequences up to the length bound; each ACL is compared with itself minus each single pattern; signature = (3 decisions with their deciding reason, list lengths); non-trivial = some topic is decided by a deny or allow pattern rather than the default"
+	rep.Rule = "SQL proxy half: case = (ACL, topic) decided by the real proxy.ACL.Allows; ACLs = every pair of allow/deny pattern sequences up to the length bound over the pattern alphabet (star, blank, exact names, trailing wildcard, character class with a set / a range / a negation, backslash escape, '?'); the oracle matches patterns with a reference matcher written from the definition of the pattern language; each ACL is compared with itself minus each single pattern; signature = (3 decisions with their deciding reason, list lengths); non-trivial = some topic is decided by a deny or allow pattern rather than the default"
 	rep.Assumptions = []string{
+		"SQL proxy: patterns are globs in the language the proxy hands them to (path.Match: '*', '?', [set], [lo-hi], [^...], backslash escape); malformed patterns (meaning undocumented) are not in the alphabet",
 		"SQL proxy: blank patterns match nothing; an allow list holding only blank patterns may count as empty or not (either decision accepted)",
 		"SQL proxy: adding an allow pattern is only required to be monotone when the allow list was already non-empty (otherwise the default itself changes)",
 	}
@@ -150,6 +315,10 @@ func TestVerifC23(t *testing.T) {
 		}
 		return
 	}
+	if err := c23sSelfCheck(); err != nil {
+		t.Fatalf("HARNESS-ERROR %v", err)
+	}
+	// quick: both lists <= 3 patterns; thorough: one list <= 4 and the other <= 3 (both ways)
 	maxLen := 3
 	if vh.Thorough() {
 		maxLen = 4
@@ -157,6 +326,9 @@ func TestVerifC23(t *testing.T) {
 	rep.SetInfo("sql_patterns", c23sPatterns)
 	rep.SetInfo("sql_topics", c23sTopics)
 	rep.SetInfo("sql_max_patterns_per_list", maxLen)
+	if maxLen > 3 {
+		rep.SetInfo("sql_max_patterns_both_lists_together", 7)
+	}
 	mk := func(seq []int) []string {
 		out := make([]string, len(seq))
 		for i, x := range seq {
@@ -171,7 +343,11 @@ func TestVerifC23(t *testing.T) {
 	}
 	enum.Sequences(len(c23sPatterns), maxLen, func(as []int) bool {
 		allow := mk(as)
-		enum.Sequences(len(c23sPatterns), maxLen, func(ds []int) bool {
+		maxDeny := maxLen
+		if len(as) > 3 {
+			maxDeny = 3
+		}
+		enum.Sequences(len(c23sPatterns), maxDeny, func(ds []int) bool {
 			deny := mk(ds)
 			a := ACL{Allow: allow, Deny: deny}
 			sig := fmt.Sprintf("%d/%d", len(allow), len(deny))
